@@ -27,6 +27,12 @@ Definition enc_shared (s : shared) : list Z :=
 Definition in_exit (th : thread) : bool :=
   match t_ctl th with Proto p _ => Nat.leb 17 (pc_id p) && Nat.leb (pc_id p) 22 | _ => false end.
 
+Definition outermost (s' : state) : bool :=
+  match nth_error (ths s') 0 with
+  | Some th' => match t_stack th' with [] => true | _ => false end
+  | None => true
+  end.
+
 Definition seq_event (th : thread) (l : label) (s' : state) : list (list Z) :=
   let e := enc_shared (sh s') in
   match l with
@@ -38,8 +44,10 @@ Definition seq_event (th : thread) (l : label) (s' : state) : list (list Z) :=
                 match t_ctl th' with Run => [4 :: e] | _ => [] end
             | _, _ => []
             end
-  | LTryEnd => [0 :: e ++ [0; b2z (entry_eqb (tbl (sh s')) NoEntry)]]
-  | LCaught => [0 :: e ++ [1; b2z (entry_eqb (tbl (sh s')) NoEntry)]]
+  (* only the outermost Try of a history is an operation boundary; an inner Try is a
+     handler inside library or user code that caught an exception and went on *)
+  | LTryEnd => if outermost s' then [0 :: e ++ [0; b2z (entry_eqb (tbl (sh s')) NoEntry)]] else []
+  | LCaught => if outermost s' then [0 :: e ++ [1; b2z (entry_eqb (tbl (sh s')) NoEntry)]] else []
   | _ => []
   end.
 
